@@ -1032,6 +1032,138 @@ fn run_fallback_case(
 // main
 // ---------------------------------------------------------------------------------------------
 
+/// Two transmits of different shape sent back to back and read with full receive batches: whatever
+/// the kernel puts into one batch (a coalesced burst next to a plain datagram, in either order), the
+/// reported (len, stride) pairs must split the batch back into exactly the datagrams sent, in order.
+/// Returns (cases, cases in which one recv call returned a coalesced and an uncoalesced message
+/// together, violations).
+fn mixed_batches(kind: Kind, thorough: bool) -> (u64, u64, Vec<Violation>) {
+    let mut viol = vec![];
+    let (mut cases, mut mixed) = (0u64, 0u64);
+    let Ok(p) = mk_pair(kind) else { return (0, 0, viol) };
+    p.set_rx_gro(true);
+    let mut arena = vec![0u8; SLOT * BATCH_SIZE];
+    let segs: &[usize] = if thorough { &[64, 100, 500, 1200, 1400] } else { &[100, 500, 1200] };
+    for &seg in segs {
+        for count in [2usize, 3] {
+            for last in [seg, seg / 2 + 1] {
+                for plain in [1usize, seg - 1, seg, seg + 1, 1200, 1400] {
+                    for burst_first in [true, false] {
+                        cases += 1;
+                        // expected datagrams in order
+                        let mut burst: Vec<usize> = vec![seg; count - 1];
+                        burst.push(last);
+                        let id = (seg * 31 + count * 7 + last + plain) as u32;
+                        let make = |len: usize, which: usize| -> Vec<u8> { (0..len).map(|i| pat(id, which, i)).collect() };
+                        let burst_bytes: Vec<u8> = burst.iter().enumerate().flat_map(|(k, l)| make(*l, k)).collect();
+                        let plain_bytes = make(plain, 9);
+                        let tb = Transmit { destination: p.dst, ecn: None, contents: &burst_bytes, segment_size: Some(seg), src_ip: None };
+                        let tp = Transmit { destination: p.dst, ecn: None, contents: &plain_bytes, segment_size: None, src_ip: None };
+                        let order: [&Transmit<'_>; 2] = if burst_first { [&tb, &tp] } else { [&tp, &tb] };
+                        let mut send_failed = false;
+                        for t in order {
+                            let mut wb = 0;
+                            loop {
+                                match p.ss.try_send((&p.send).into(), t) {
+                                    Err(e) if e.kind() == io::ErrorKind::WouldBlock && wb < 100 => {
+                                        wb += 1;
+                                        std::thread::sleep(Duration::from_millis(1));
+                                    }
+                                    Err(_) => {
+                                        send_failed = true;
+                                        break;
+                                    }
+                                    Ok(()) => break,
+                                }
+                            }
+                        }
+                        if send_failed {
+                            drain(&p, &mut arena);
+                            continue;
+                        }
+                        let mut want: Vec<Vec<u8>> = vec![];
+                        let burst_d: Vec<Vec<u8>> = burst.iter().enumerate().map(|(k, l)| make(*l, k)).collect();
+                        if burst_first {
+                            want.extend(burst_d.clone());
+                            want.push(plain_bytes.clone());
+                        } else {
+                            want.push(plain_bytes.clone());
+                            want.extend(burst_d.clone());
+                        }
+                        // let both transmits reach the socket queue, then read whole batches
+                        std::thread::sleep(Duration::from_millis(3));
+                        let mut got: Vec<Vec<u8>> = vec![];
+                        let mut shapes: Vec<Vec<(usize, usize)>> = vec![];
+                        let deadline = Instant::now() + Duration::from_millis(RECV_WAIT_MS);
+                        while got.len() < want.len() && Instant::now() < deadline {
+                            let mut meta = [RecvMeta::default(); BATCH_SIZE];
+                            let res = {
+                                let mut bufs: Vec<IoSliceMut<'_>> = arena.chunks_mut(SLOT).take(BATCH_SIZE).map(|c| IoSliceMut::new(&mut c[..SLOT - 1])).collect();
+                                catch_unwind(AssertUnwindSafe(|| p.rs.recv((&p.recv).into(), &mut bufs, &mut meta)))
+                            };
+                            match res {
+                                Ok(Ok(n)) => {
+                                    let mut shape = vec![];
+                                    for k in 0..n {
+                                        let m = meta[k];
+                                        shape.push((m.len, m.stride));
+                                        let buf = &arena[k * SLOT..k * SLOT + m.len.min(SLOT - 1)];
+                                        let mut off = 0;
+                                        while off < buf.len() {
+                                            let end = (off + m.stride.max(1)).min(buf.len());
+                                            got.push(buf[off..end].to_vec());
+                                            off = end;
+                                        }
+                                        if m.len == 0 {
+                                            got.push(vec![]);
+                                        }
+                                    }
+                                    if shape.iter().any(|(l, s)| l > s) && shape.iter().any(|(l, s)| l <= s) {
+                                        mixed += 1;
+                                    }
+                                    shapes.push(shape);
+                                }
+                                Ok(Err(e)) if e.kind() == io::ErrorKind::WouldBlock => {
+                                    poll_in(&p.recv, 10);
+                                }
+                                Ok(Err(_)) => break,
+                                Err(_) => {
+                                    got.push(b"<panic in recv>".to_vec());
+                                    break;
+                                }
+                            }
+                        }
+                        let lens = |v: &Vec<Vec<u8>>| v.iter().map(|d| d.len()).collect::<Vec<_>>();
+                        if got.is_empty() {
+                            continue; // the kernel is not owned: silence is not judged
+                        }
+                        if got != want {
+                            viol.push(Violation {
+                                signature: "mixed-batch-boundaries".into(),
+                                what: format!(
+                                    "{}: a {}x{seg} burst (last {last}) and a plain {plain}-byte datagram sent back to back ({}): the receive batches {:?} (len, stride) split into datagrams of {:?}, sent were {:?}",
+                                    kind.name(),
+                                    count,
+                                    if burst_first { "burst first" } else { "plain first" },
+                                    shapes,
+                                    lens(&got),
+                                    lens(&want)
+                                ),
+                                replay: json!({"check":"c19","kind":"mixed","pair":kind.name(),"seg":seg,"count":count,"last":last,"plain":plain,"burst_first":burst_first}),
+                            });
+                            drain(&p, &mut arena);
+                            if viol.len() >= 3 {
+                                return (cases, mixed, viol);
+                            }
+                        }
+                    }
+                }
+            }
+        }
+    }
+    (cases, mixed, viol)
+}
+
 fn replay(file: &std::path::Path) -> ! {
     let body = std::fs::read_to_string(file).unwrap_or_else(|e| machinery(&format!("cannot read {file:?}: {e}")));
     let v: Value = serde_json::from_str(&body).unwrap_or_else(|e| machinery(&format!("bad json: {e}")));
@@ -1216,6 +1348,19 @@ fn main() {
         );
     }
     rep.part("fallback", Value::Object(fb));
+    // mixed receive batches (a coalesced burst next to a plain datagram in one recvmmsg batch)
+    {
+        let mut mb = serde_json::Map::new();
+        for (kind, _) in &plan {
+            let (cases, mixed, viol) = mixed_batches(*kind, tier == Tier::Thorough);
+            rep.evaluations += cases;
+            mb.insert(kind.name().into(), json!({"cases": cases, "recv_calls_with_coalesced_and_plain_message_together": mixed}));
+            for v in viol {
+                rep.violation(v);
+            }
+        }
+        rep.part("mixed_receive_batches", Value::Object(mb));
+    }
 
     // the quinn endpoint's own share of the property: coalesced receive batches are split back into
     // the original datagrams by their stride (RecvState::poll_socket). Explored under the
